@@ -16,5 +16,5 @@ CFG = {
     "corners on the dyadic lattice {0,1,2}^3, queries on the half-integer lattice: all box arithmetic is exact",
     "the BVH builder's only nondeterminism is math/rand in rendering/bvh.go (checked: a run that meets no choice point, or an unsupported draw, is reported as not exhaustive)",
 ],
-"budget": {"quick": 100, "thorough": 1100},
+"budget": {"quick": 300, "thorough": 1500},
 }
